@@ -88,6 +88,12 @@ async def apply(op, root, base):
             return await p.write_text(op[2])
         if kind == "read_text":
             return await p.read_text()
+        if kind == "read_text_n":
+            return await p.read_text(op[2])
+        if kind == "symlink_text":
+            # the target text is stored in the link as given (`./x`, `d//x`, `x/` are not the same link as `x`)
+            await p.symlink_to(op[2])
+            return None
         if kind == "size":
             return await p.size()
         if kind == "checksum":
@@ -118,6 +124,8 @@ async def apply(op, root, base):
                 if n > 200:
                     return "walk does not terminate (more than 200 directories reported for a tree of fewer)"
             return sorted(out)
+    except UnicodeDecodeError:
+        return "DECODE-ERROR"
     except (OSError, WorkflowExecutionException) as e:
         return "ERROR"
     raise AssertionError(kind)
@@ -149,6 +157,15 @@ def random_ops(n):
         elif r < 0.74 and known_files:
             # (permission bits and the setuid / setgid / sticky bits)
             ops.append(("chmod", rng.choice(known_files), rng.choice([0o600, 0o700, 0o400 | 0o200, 0o4755, 0o2770, 0o1777])))
+        elif r < 0.76 and known_files:
+            f = rng.choice(known_files)
+            if rng.random() < 0.5:
+                # the first n characters (ASCII contents only: the remote side counts bytes)
+                ops.append(("read_text_n", f, rng.choice([0, 0, 1, 3, 1000])))
+            else:
+                l = f[:-1] + (rng.choice(NAMES) + ".rel.lnk",)
+                ops.append(("symlink_text", l, rng.choice(["./", "", "x/../"]) + f[-1] + rng.choice(["", "", "/"])))
+                known_links.append(l)
         elif r < 0.78 and known_links:
             # a link seen through the predicates: live, dangling (its target was removed or never existed), replaced
             ops.append((rng.choice(["exists", "is_symlink", "is_file", "is_dir"]), rng.choice(known_links)))
@@ -183,7 +200,10 @@ def classify(op, l, r, lbase=None):
     if op[0] == "mkdir" and op[3] != op[4] and l == "ERROR" and r is None:
         # parents=True without exist_ok on an existing directory, or exist_ok=True without parents under a missing parent
         return "KF-C24-mkdir-p-conflates-flags"
-    if op[0] == "read_text" and isinstance(l, str) and isinstance(r, str) and l != r and l.strip() == r:
+    if op[0] == "read_text_n" and isinstance(l, str) and not l.isascii() and (r == "DECODE-ERROR" or isinstance(r, str)):
+        # the remote side takes the first n BYTES (`head -c n`), the local one the first n characters
+        return "KF-C24-read-text-n-counts-bytes"
+    if op[0] in ("read_text", "read_text_n") and isinstance(l, str) and isinstance(r, str) and l != r and l.strip() == r:
         return "KF-C24-read-text-strips"
     return None
 
@@ -236,6 +256,7 @@ DIRECTED = [
     ("KF-C24-read-text-strips", [("write_text", ("t.txt",), "line\n"), ("read_text", ("t.txt",))]),
     ("KF-C24-size-follows-symlinks", [("mkdir", ("d",), 0o755, True, True), ("write_text", ("f.txt",), "0123456789"), ("symlink_to", ("d", "l.lnk"), ("f.txt",)), ("size", ("d",))]),
     ("KF-C24-link-replaces-existing", [("write_text", ("a.txt",), "x"), ("write_text", ("b.txt",), "y"), ("symlink_to", ("l.lnk",), ("a.txt",)), ("symlink_to", ("l.lnk",), ("b.txt",))]),
+    ("KF-C24-read-text-n-counts-bytes", [("write_text", ("u.txt",), "日本語のテキスト"), ("read_text_n", ("u.txt",), 1), ("read_text_n", ("u.txt",), 4)]),
     ("KF-C24-mkdir-p-conflates-flags", [("mkdir", ("e",), 0o755, True, True), ("mkdir", ("e",), 0o755, True, False), ("mkdir", ("g", "h"), 0o755, False, True)]),
 ]
 
@@ -260,6 +281,10 @@ def systematic_ops():
             ("symlink_to", ("livedir.lnk",), ("tgt d",))]
     ops += [(q, (l,)) for q in preds for l in ("live.lnk", "livedir.lnk")]
     ops += [("rmtree", ("tgt d",))] + [(q, (l,)) for q in preds for l in ("live.lnk", "livedir.lnk")]
+    # link targets given with redundant syntax, and bounded reads
+    ops += [("write_text", ("plain.txt",), "hello world"), ("symlink_text", ("dot.lnk",), "./plain.txt"), ("symlink_text", ("slash.lnk",), "plain.txt/"),
+            ("symlink_text", ("up.lnk",), "x/../plain.txt"), ("exists", ("slash.lnk",)), ("is_file", ("dot.lnk",))]
+    ops += [("read_text_n", ("plain.txt",), n) for n in (0, 1, 5, 11, 50)]
     # permission bits and the special bits
     ops += [("write_text", ("modes.txt",), "m")] + [("chmod", ("modes.txt",), m) for m in (0o640, 0o4755, 0o2770, 0o1777, 0o600)]
     return ops
